@@ -1112,3 +1112,715 @@ Section Blocks.
       + intros id o Hv. apply D'. apply Ev, Hv.
   Qed.
 End Blocks.
+
+(* ------------------------------------------------------------------------------------------ *)
+(* 6. preservation by the ops other than PollDispatch *)
+Lemma set_nth_b_eq n x l : set_nth_b n x l = set_nth n x l.
+Proof. revert n; induction l as [|y r IH]; intros [|n]; cbn; try reflexivity. f_equal; apply IH. Qed.
+
+Lemma upd_m_same m :
+  upd_m m (m_now m) (m_calls m) (m_done m) (m_abandoned m) (m_closing m) (m_polled m) (m_disp m)
+        (m_disp_dropped m) (m_handles m) (m_contract m) = m.
+Proof. destruct m; reflexivity. Qed.
+
+Section Ops.
+  Context {T : Type} (tp : transport T cmsg resp) (fuel_of : @cstate T -> nat).
+  Notation cstate := (@cstate T).
+  Notation op := (@op T).
+  Implicit Types (s : cstate) (m : mst).
+
+  Lemma mcore_refl m : mcore m m.
+  Proof. constructor; reflexivity. Qed.
+
+  (* the environment moves: clock, handles *)
+  Lemma sim_env m m' s s' :
+    sim m s -> calls s' = calls s -> next_id s' = next_id s -> waiters s' = waiters s ->
+    queue s' = queue s -> inflight s' = inflight s -> timers s' = timers s -> slots s' = slots s ->
+    m_calls m' = m_calls m -> m_sent m' = m_sent m -> m_read m' = m_read m -> m_seq m' = m_seq m ->
+    m_polled m' = m_polled m -> m_abandoned m' = m_abandoned m -> m_closing m' = m_closing m ->
+    m_done m' = m_done m -> m_now m' = now s' -> m_handles m' = handles s' -> m_now m <= m_now m' ->
+    sim m' s'.
+  Proof.
+    intros [C W D] Ec Ei Ew Eq Ef Et Es Mc Ms Mr Mq Mp Ma Mcl Md Mn Mh Hle. constructor.
+    - constructor; rewrite ?Ec, ?Ei, ?Mc, ?Mp, ?Ma, ?Mcl, ?Md; try apply C; try assumption.
+      + intros i k Hk. pose proof (sc_created _ _ C i k Hk). lia.
+      + intros i c Hc. eapply disc_meq; [apply (sc_phase _ _ C), Hc|assumption..].
+      + intros i c Hc Hp. rewrite (id_of_eq m m' i Mp). apply (sc_id _ _ C); assumption.
+    - eapply winv_frame; eassumption.
+    - eapply simD_frame; try eassumption. eapply simD_mono; try eassumption; try lia.
+      + apply mgrow_refl_eq; assumption.
+      + rewrite Mp. apply C.
+  Qed.
+
+  Lemma sim_meq m m' s :
+    sim m s -> mcore m m' -> m_polled m' = m_polled m -> m_abandoned m' = m_abandoned m ->
+    m_closing m' = m_closing m -> m_done m' = m_done m -> sim m' s.
+  Proof.
+    intros S M Mp Ma Mcl Md.
+    eapply sim_env; try eassumption; try reflexivity; try apply M.
+    - rewrite (mc_now _ _ M). apply S.
+    - rewrite (mc_handles _ _ M). apply S.
+    - rewrite (mc_now _ _ M). lia.
+  Qed.
+
+  Lemma sim_clone_handle m s h :
+    sim m s -> sim (rec_op (T:=T) m (CloneHandle h)) (fst (step tp fuel_of s (CloneHandle h))).
+  Proof.
+    intro S. cbn [rec_op step fst]. rewrite (sc_handles _ _ (sim_c _ _ S)).
+    destruct (nth_error (handles s) h) as [[|]|]; try exact S.
+    eapply sim_env; try exact S; try reflexivity; cbn; try apply S; try lia.
+  Qed.
+
+  Lemma sim_drop_handle m s h :
+    sim m s -> sim (rec_op (T:=T) m (DropHandle h)) (fst (step tp fuel_of s (DropHandle h))).
+  Proof.
+    intro S. cbn [rec_op step fst]. rewrite (sc_handles _ _ (sim_c _ _ S)).
+    destruct (nth_error (handles s) h) as [[|]|]; try exact S.
+    eapply sim_env; try exact S; try reflexivity; cbn; try apply S; try lia.
+    apply set_nth_b_eq.
+  Qed.
+
+  Lemma sim_advance m s dt :
+    sim m s -> sim (rec_op (T:=T) m (Advance dt)) (fst (step tp fuel_of s (Advance dt))).
+  Proof.
+    intro S. cbn [rec_op step fst].
+    eapply sim_env; try exact S; try reflexivity; cbn; try apply S; try lia.
+    f_equal. apply S.
+  Qed.
+
+  Lemma sim_tr m s f : sim m s -> sim (rec_op (T:=T) m (Tr f)) (fst (step tp fuel_of s (Tr f))).
+  Proof. intro S. cbn [rec_op step fst]. eapply sim_frame; try exact S; reflexivity. Qed.
+
+  Lemma sim_call m s h d tid smp body :
+    sim m s -> sim (rec_op (T:=T) m (Call h d tid smp body)) (fst (step tp fuel_of s (Call h d tid smp body))).
+  Proof.
+    intros [C W D]. cbn [rec_op step fst]. rewrite (sc_handles _ _ C).
+    set (alive := match nth_error (handles s) h with Some true => true | _ => false end).
+    set (ph := match nth_error (handles s) h with Some true => PNew | _ => PGone end).
+    assert (Hph : ph = if alive then PNew else PGone).
+    { unfold ph, alive. destruct (nth_error (handles s) h) as [[|]|]; reflexivity. }
+    clearbody alive ph. subst ph.
+    set (k := {| k_body := body; k_tid := tid; k_sampled := smp; k_created := m_now m; k_rel := d |}).
+    set (c := {| c_handle := h; c_phase := if alive then PNew else PGone; c_id := 0; c_rel := d;
+                 c_deadline := now s + d; c_tc := {| tc_tid := tid; tc_sid := 0; tc_sampled := smp |};
+                 c_body := body |}).
+    set (ab := if alive then m_abandoned m else m_abandoned m ++ [length (m_calls m)]).
+    assert (Hlen := sc_len _ _ C).
+    assert (Hab : forall j, (j < length (m_calls m))%nat -> mem_nat j ab = mem_nat j (m_abandoned m)).
+    { intros j Hj. unfold ab. destruct alive; [reflexivity|].
+      rewrite mem_nat_app, mem_nat_single. replace (Nat.eqb j (length (m_calls m))) with false by lia.
+      apply orb_false_r. }
+    assert (Hnew : forall l, (forall j, In j l -> (j < length (m_calls m))%nat) ->
+                             mem_nat (length (m_calls m)) l = false).
+    { intros l Hl. apply mem_nat_false. intro Hin. specialize (Hl _ Hin). lia. }
+    constructor.
+    - constructor; cbn [m_now m_handles m_calls m_polled m_abandoned m_closing m_done upd_m
+                        now handles calls next_id upd_calls]; try apply C; try reflexivity.
+      + rewrite !app_length. cbn [length]. lia.
+      + intros i k0 c0 Hk Hc. apply nth_error_app_inv in Hk. apply nth_error_app_inv in Hc.
+        destruct Hk as [[Hk Hi]|[-> ->]]; destruct Hc as [[Hc Hi']|[Hi' ->]]; try lia.
+        * eapply sc_crec; eassumption.
+        * subst k c. constructor; cbn; try reflexivity. rewrite (sc_now _ _ C). reflexivity.
+      + intros i k0 Hk. apply nth_error_app_inv in Hk.
+        destruct Hk as [[Hk Hi]|[-> ->]]; [eapply sc_created; eassumption|]. subst k; cbn. lia.
+      + intros i c0 Hc. apply nth_error_app_inv in Hc. destruct Hc as [[Hc Hi]|[-> ->]].
+        * pose proof (sc_phase _ _ C _ _ Hc) as []. constructor; try assumption.
+          cbn [m_abandoned upd_m]. fold ab. rewrite Hab by lia. assumption.
+        * rewrite <- Hlen. subst c. cbn [c_phase]. constructor; cbn [m_polled m_abandoned m_closing upd_m].
+          -- intros b Hb. rewrite (Hnew _ (sc_range_p _ _ C)). destruct alive; cbn in Hb; congruence.
+          -- fold ab. unfold ab. destruct alive; cbn [ph_aband].
+             ++ apply (Hnew _ (sc_range_a _ _ C)).
+             ++ rewrite mem_nat_app, mem_nat_single, Nat.eqb_refl. apply orb_true_r.
+          -- rewrite (Hnew _ (sc_range_c _ _ C)). destruct alive; reflexivity.
+          -- unfold done_idx. cbn [m_done upd_m].
+             assert (Hd : done_idx m (length (m_calls m)) = false).
+             { destruct (done_idx m (length (m_calls m))) eqn:E; [|reflexivity].
+               apply done_idx_In in E. destruct E as [o E]. apply (sc_range_d _ _ C) in E. lia. }
+             unfold done_idx in Hd. rewrite Hd. destruct alive; reflexivity.
+      + intros i Hi. rewrite app_length. apply (sc_range_p _ _ C) in Hi. lia.
+      + intros i Hi. fold ab in Hi. rewrite app_length. cbn [length]. unfold ab in Hi. destruct alive.
+        * apply (sc_range_a _ _ C) in Hi. lia.
+        * apply in_app_or in Hi. destruct Hi as [Hi|[<-|[]]]; [apply (sc_range_a _ _ C) in Hi|]; lia.
+      + intros i Hi. rewrite app_length. apply (sc_range_c _ _ C) in Hi. lia.
+      + intros i o Hi. rewrite app_length. apply (sc_range_d _ _ C) in Hi. lia.
+      + intros i c0 Hc Hp. apply nth_error_app_inv in Hc. destruct Hc as [[Hc Hi]|[-> ->]].
+        * apply (sc_id _ _ C _ _ Hc Hp).
+        * apply (sc_range_p _ _ C) in Hp. lia.
+    - constructor; cbn [waiters calls upd_calls]; [|apply W]. intros w Hin.
+      destruct (w_acq _ W w Hin) as (c0 & Hc0 & Hp0). exists c0. split; [|exact Hp0].
+      rewrite nth_error_app1; [exact Hc0|]. apply nth_error_Some. congruence.
+    - assert (D' : simD (rec_op (T:=T) m (Call h d tid smp body)) s).
+      { eapply simD_mono; try exact D; cbn; try reflexivity; try lia.
+        - split; [exists []; rewrite app_nil_r; reflexivity|eexists; reflexivity].
+        - apply C. }
+      cbn [rec_op] in D'. rewrite (sc_handles _ _ C) in D'.
+      constructor; cbn [calls queue inflight timers upd_calls]; try apply D'.
+      + intros i c0 Hc Hst. apply nth_error_app_inv in Hc. destruct Hc as [[Hc Hi]|[-> ->]].
+        * apply (sd_staged _ _ D' _ _ Hc Hst).
+        * subst c. cbn in Hst. destruct alive; discriminate.
+  Qed.
+
+  (* ---- helpers on the observer's lists *)
+  Lemma mem_nat_snoc_other j i l : j <> i -> mem_nat j (l ++ [i]) = mem_nat j l.
+  Proof.
+    intro H. rewrite mem_nat_app, mem_nat_single.
+    destruct (Nat.eqb j i) eqn:E; [apply Nat.eqb_eq in E; contradiction|apply orb_false_r].
+  Qed.
+  Lemma mem_nat_snoc_same i l : mem_nat i (l ++ [i]) = true.
+  Proof. rewrite mem_nat_app, mem_nat_single, Nat.eqb_refl. apply orb_true_r. Qed.
+
+  Lemma done_idx_snoc m m' i o j :
+    m_done m' = m_done m ++ [(i, o)] -> done_idx m' j = done_idx m j || Nat.eqb i j.
+  Proof. intro E. unfold done_idx. rewrite E, existsb_app. cbn. rewrite orb_false_r. reflexivity. Qed.
+
+  Lemma agree_lists m m' i :
+    (forall j, j <> i -> mem_nat j (m_abandoned m') = mem_nat j (m_abandoned m)) ->
+    (forall j, j <> i -> mem_nat j (m_closing m') = mem_nat j (m_closing m)) ->
+    (forall j, j <> i -> done_idx m' j = done_idx m j) -> agree_except m m' i.
+  Proof. intros H1 H2 H3 j Hj. auto. Qed.
+
+  (* ---- a released permit goes to the first waiter *)
+  Lemma sim_release_permit m s : sim m s -> sim m (release_permit s).
+  Proof.
+    intro S. unfold release_permit. destruct (waiters s) as [|w r] eqn:Ew.
+    - eapply sim_sbc; [exact S|apply sbc_upd_q, sbc_refl|reflexivity|cbn; symmetry; exact Ew|reflexivity].
+    - destruct (w_acq _ (sim_w _ _ S) w) as (c & Hc & Hp); [rewrite Ew; left; reflexivity|].
+      pose proof (w_nodup _ (sim_w _ _ S)) as Hnd. rewrite Ew in Hnd. inversion Hnd as [|? ? Hn Hr]; subst.
+      eapply (sim_active_step m s _ w c PAssigned); try exact S; try exact Hc.
+      + rewrite Hp; reflexivity.
+      + reflexivity.
+      + rewrite Hp; reflexivity.
+      + rewrite set_phase_alt. reflexivity.
+      + apply sbc_set_phase, sbc_upd_q, sbc_refl.
+      + rewrite set_phase_alt. reflexivity.
+      + rewrite set_phase_alt. cbn [waiters upd_calls upd_q]. intros w' Hin. split.
+        * rewrite Ew. right; exact Hin.
+        * intros ->. contradiction.
+      + rewrite set_phase_alt. exact Hr.
+  Qed.
+
+  Lemma release_permit_nth s i c :
+    winv s -> nth_error (calls s) i = Some c -> c_phase c <> PAcquiring ->
+    nth_error (calls (release_permit s)) i = Some c.
+  Proof.
+    intros W Hc Hp. unfold release_permit. destruct (waiters s) as [|w r] eqn:Ew; [exact Hc|].
+    rewrite set_phase_alt. cbn [calls upd_calls upd_q]. rewrite nth_error_phase_calls.
+    destruct (Nat.eqb w i) eqn:E; [|exact Hc]. apply Nat.eqb_eq in E. subst w.
+    exfalso. eapply winv_not_acq; try eassumption. rewrite Ew. left; reflexivity.
+  Qed.
+
+  (* ---- first half of a guard drop *)
+  Definition closed_phase (p : phase) : phase := match p with PNew => PGone | _ => PClosing end.
+
+  Lemma remove_waiter_In i w l : In w (remove_waiter i l) -> In w l /\ w <> i.
+  Proof.
+    unfold remove_waiter. rewrite filter_In. intros [H1 H2]. split; [exact H1|].
+    intros ->. rewrite Nat.eqb_refl in H2. discriminate.
+  Qed.
+
+  Lemma sim_guard_close_gen m m' s i c :
+    sim m s -> nth_error (calls s) i = Some c -> (c_phase c = PNew \/ active (c_phase c) = true) ->
+    mcore m m' -> m_polled m' = m_polled m -> agree_except m m' i ->
+    disc m' i (closed_phase (c_phase c)) ->
+    sim m' (guard_close s i) /\
+    nth_error (calls (guard_close s i)) i = Some (with_phase c (closed_phase (c_phase c))).
+  Proof.
+    intros S Hc Hph M Mp Ag Di. unfold guard_close. rewrite Hc.
+    assert (Hnth : forall l p, l = calls s -> nth_error (phase_calls l i p) i = Some (with_phase c p)).
+    { intros l p ->. rewrite nth_error_phase_calls, Nat.eqb_refl, Hc. reflexivity. }
+    destruct (c_phase c) eqn:Hp; cbn [closed_phase] in *;
+      try (destruct Hph as [Hph|Hph]; discriminate).
+    - (* PNew *)
+      split; [|rewrite set_phase_alt; apply Hnth; reflexivity].
+      eapply (sim_phase_obs m m' s _ i c PGone); try eassumption; try reflexivity.
+      + rewrite set_phase_alt. reflexivity.
+      + apply sbc_set_phase, sbc_refl.
+      + rewrite set_phase_alt. reflexivity.
+      + rewrite set_phase_alt. cbn [waiters upd_calls]. intros w Hin. split; [exact Hin|].
+        intros ->. eapply winv_not_acq; try eassumption; [apply S|congruence].
+      + rewrite set_phase_alt. apply S.
+    - (* PAcquiring *)
+      split; [|rewrite set_phase_alt; apply Hnth; reflexivity].
+      eapply (sim_phase_obs m m' s _ i c PClosing); try eassumption; try reflexivity.
+      + rewrite set_phase_alt. reflexivity.
+      + apply sbc_set_phase, sbc_rx_close, sbc_tx_drop, sbc_upd_q, sbc_refl.
+      + rewrite set_phase_alt. reflexivity.
+      + rewrite set_phase_alt. cbn [waiters upd_calls upd_q slot_rx_close slot_tx_drop set_slot upd_slots].
+        intros w Hin. apply (remove_waiter_In i w _ Hin).
+      + rewrite set_phase_alt. cbn [waiters upd_calls upd_q slot_rx_close slot_tx_drop set_slot upd_slots].
+        apply NoDup_filter, S.
+    - (* PAssigned *)
+      assert (S1 : sim m' (set_phase s i PClosing)).
+      { eapply (sim_phase_obs m m' s _ i c PClosing); try eassumption; try reflexivity.
+        + rewrite set_phase_alt. reflexivity.
+        + apply sbc_set_phase, sbc_refl.
+        + rewrite set_phase_alt. reflexivity.
+        + rewrite set_phase_alt. cbn [waiters upd_calls]. intros w Hin. split; [exact Hin|].
+          intros ->. eapply winv_not_acq; try eassumption; [apply S|congruence].
+        + rewrite set_phase_alt. apply S. }
+      assert (H1 : nth_error (calls (set_phase s i PClosing)) i = Some (with_phase c PClosing)).
+      { rewrite set_phase_alt. apply Hnth. reflexivity. }
+      set (s1 := set_phase s i PClosing) in *.
+      destruct (rx_closed s1).
+      + split.
+        * eapply sim_sbc; [exact S1|apply sbc_rx_close, sbc_tx_drop, sbc_upd_q, sbc_refl|reflexivity..].
+        * exact H1.
+      + split.
+        * eapply sim_sbc; [apply sim_release_permit, S1|apply sbc_rx_close, sbc_tx_drop, sbc_refl|reflexivity..].
+        * cbn [calls slot_rx_close slot_tx_drop set_slot upd_slots].
+          apply release_permit_nth; [apply S1|exact H1|discriminate].
+    - (* PAcqClosed *)
+      split; [|rewrite set_phase_alt; apply Hnth; reflexivity].
+      eapply (sim_phase_obs m m' s _ i c PClosing); try eassumption; try reflexivity.
+      + rewrite set_phase_alt. reflexivity.
+      + apply sbc_set_phase, sbc_rx_close, sbc_tx_drop, sbc_refl.
+      + rewrite set_phase_alt. reflexivity.
+      + rewrite set_phase_alt. cbn [waiters upd_calls slot_rx_close slot_tx_drop set_slot upd_slots].
+        intros w Hin. split; [exact Hin|].
+        intros ->. eapply winv_not_acq; try eassumption; [apply S|congruence].
+      + rewrite set_phase_alt. apply S.
+    - (* PAwaiting *)
+      split; [|rewrite set_phase_alt; apply Hnth; reflexivity].
+      eapply (sim_phase_obs m m' s _ i c PClosing); try eassumption; try reflexivity.
+      + rewrite set_phase_alt. reflexivity.
+      + apply sbc_set_phase, sbc_rx_close, sbc_refl.
+      + rewrite set_phase_alt. reflexivity.
+      + rewrite set_phase_alt. cbn [waiters upd_calls slot_rx_close set_slot upd_slots].
+        intros w Hin. split; [exact Hin|].
+        intros ->. eapply winv_not_acq; try eassumption; [apply S|congruence].
+      + rewrite set_phase_alt. apply S.
+  Qed.
+
+  (* ---- second half: the cancellation is queued *)
+  Lemma sim_guard_cancel_gen m m' s i c :
+    sim m s -> nth_error (calls s) i = Some c -> c_phase c = PClosing ->
+    mcore m m' -> m_polled m' = m_polled m -> agree_except m m' i -> disc m' i PGone ->
+    sim m' (guard_cancel s i).
+  Proof.
+    intros S Hc Hp M Mp Ag Di. unfold guard_cancel. rewrite Hc, Hp.
+    eapply (sim_phase_obs m m' s _ i c PGone); try eassumption; try reflexivity.
+    + rewrite set_phase_alt, push_cancel_alt. reflexivity.
+    + apply sbc_set_phase, sbc_push_cancel, sbc_refl.
+    + rewrite set_phase_alt, push_cancel_alt. reflexivity.
+    + rewrite set_phase_alt, push_cancel_alt. cbn [waiters upd_calls upd_cancels].
+      intros w Hin. split; [exact Hin|].
+      intros ->. eapply winv_not_acq; try eassumption; [apply S|congruence].
+    + rewrite set_phase_alt, push_cancel_alt. apply S.
+  Qed.
+
+  Lemma guard_close_none s i : nth_error (calls s) i = None -> guard_close s i = s.
+  Proof. intro H. unfold guard_close. rewrite H. reflexivity. Qed.
+  Lemma guard_cancel_none s i : nth_error (calls s) i = None -> guard_cancel s i = s.
+  Proof. intro H. unfold guard_cancel. rewrite H. reflexivity. Qed.
+
+  Lemma sim_range_false m s i :
+    simC m s -> nth_error (calls s) i <> None -> (length (m_calls m) <=? i)%nat = false.
+  Proof. intros C H. apply nth_error_Some in H. rewrite (sc_len _ _ C). lia. Qed.
+  Lemma sim_range_true m s i :
+    simC m s -> nth_error (calls s) i = None -> (length (m_calls m) <=? i)%nat = true.
+  Proof. intros C H. apply nth_error_None in H. rewrite (sc_len _ _ C). lia. Qed.
+
+  Lemma sim_guard_close_op m s i :
+    sim m s -> sim (rec_op (T:=T) m (GuardClose i)) (fst (step tp fuel_of s (GuardClose i))).
+  Proof.
+    intro S. cbn [step fst rec_op].
+    destruct (nth_error (calls s) i) as [c|] eqn:Hc; cbn [option_map].
+    2:{ rewrite (sim_range_true _ _ _ (sim_c _ _ S) Hc). cbn [orb]. rewrite guard_close_none by exact Hc. exact S. }
+    pose proof (sc_phase _ _ (sim_c _ _ S) _ _ Hc) as [Dp Da Dc Dd].
+    rewrite (sim_range_false m s i (sim_c _ _ S)) by congruence. rewrite Dd, Da, Dc. cbn [orb].
+    destruct (c_phase c) eqn:Hp; cbn [ph_done ph_aband ph_closing orb]; cbn [ph_polled] in Dp;
+      try exact S;
+      try (unfold guard_close; rewrite Hc, Hp; exact S);
+      try (rewrite (Dp _ eq_refl)).
+    - (* PNew *)
+      eapply (sim_guard_close_gen m _ s i c); try exact S; try exact Hc.
+      + left; exact Hp.
+      + constructor; reflexivity.
+      + reflexivity.
+      + apply agree_lists; intros j Hj; cbn; try reflexivity. apply mem_nat_snoc_other, Hj.
+      + rewrite Hp. constructor; cbn.
+        * intros b Hb; discriminate.
+        * apply mem_nat_snoc_same.
+        * exact Dc.
+        * exact Dd.
+    - eapply (sim_guard_close_gen m _ s i c); try exact S; try exact Hc.
+      + right; rewrite Hp; reflexivity.
+      + constructor; reflexivity.
+      + reflexivity.
+      + apply agree_lists; intros j Hj; cbn; try reflexivity. apply mem_nat_snoc_other, Hj.
+      + rewrite Hp. constructor; cbn.
+        * intros b [= <-]. apply (Dp _ eq_refl).
+        * exact Da.
+        * apply mem_nat_snoc_same.
+        * exact Dd.
+    - eapply (sim_guard_close_gen m _ s i c); try exact S; try exact Hc.
+      + right; rewrite Hp; reflexivity.
+      + constructor; reflexivity.
+      + reflexivity.
+      + apply agree_lists; intros j Hj; cbn; try reflexivity. apply mem_nat_snoc_other, Hj.
+      + rewrite Hp. constructor; cbn.
+        * intros b [= <-]. apply (Dp _ eq_refl).
+        * exact Da.
+        * apply mem_nat_snoc_same.
+        * exact Dd.
+    - eapply (sim_guard_close_gen m _ s i c); try exact S; try exact Hc.
+      + right; rewrite Hp; reflexivity.
+      + constructor; reflexivity.
+      + reflexivity.
+      + apply agree_lists; intros j Hj; cbn; try reflexivity. apply mem_nat_snoc_other, Hj.
+      + rewrite Hp. constructor; cbn.
+        * intros b [= <-]. apply (Dp _ eq_refl).
+        * exact Da.
+        * apply mem_nat_snoc_same.
+        * exact Dd.
+    - eapply (sim_guard_close_gen m _ s i c); try exact S; try exact Hc.
+      + right; rewrite Hp; reflexivity.
+      + constructor; reflexivity.
+      + reflexivity.
+      + apply agree_lists; intros j Hj; cbn; try reflexivity. apply mem_nat_snoc_other, Hj.
+      + rewrite Hp. constructor; cbn.
+        * intros b [= <-]. apply (Dp _ eq_refl).
+        * exact Da.
+        * apply mem_nat_snoc_same.
+        * exact Dd.
+  Qed.
+
+  Lemma sim_guard_cancel_op m s i :
+    sim m s -> sim (rec_op (T:=T) m (GuardCancel i)) (fst (step tp fuel_of s (GuardCancel i))).
+  Proof.
+    intro S. cbn [step fst rec_op].
+    destruct (nth_error (calls s) i) as [c|] eqn:Hc.
+    2:{ rewrite guard_cancel_none by exact Hc.
+        destruct (mem_nat i (m_closing m)) eqn:E; [|exact S].
+        apply mem_nat_In in E. apply (sc_range_c _ _ (sim_c _ _ S)) in E.
+        apply nth_error_None in Hc. rewrite (sc_len _ _ (sim_c _ _ S)) in E. lia. }
+    pose proof (sc_phase _ _ (sim_c _ _ S) _ _ Hc) as [Dp Da Dc Dd]. rewrite Dc.
+    destruct (c_phase c) eqn:Hp; cbn [ph_closing];
+      try (unfold guard_cancel; rewrite Hc, Hp; exact S).
+    eapply (sim_guard_cancel_gen m _ s i c); try exact S; try exact Hc; try exact Hp.
+    - constructor; reflexivity.
+    - reflexivity.
+    - apply agree_lists; intros j Hj.
+      + cbn [m_abandoned upd_m]. apply mem_nat_snoc_other, Hj.
+      + cbn [m_closing upd_m]. rewrite mem_nat_filter_neq.
+        replace (Nat.eqb j i) with false by lia. apply andb_true_r.
+      + reflexivity.
+    - constructor.
+      + intros b Hb; discriminate.
+      + cbn [m_abandoned upd_m]. apply mem_nat_snoc_same.
+      + cbn [m_closing upd_m ph_closing]. rewrite mem_nat_filter_neq, Nat.eqb_refl. apply andb_false_r.
+      + exact Dd.
+  Qed.
+
+  Lemma sim_drop_call_op m s i :
+    sim m s -> sim (rec_op (T:=T) m (DropCall i)) (fst (step tp fuel_of s (DropCall i))).
+  Proof.
+    intro S. cbn [step fst rec_op].
+    destruct (nth_error (calls s) i) as [c|] eqn:Hc; cbn [option_map].
+    2:{ rewrite (sim_range_true _ _ _ (sim_c _ _ S) Hc). cbn [orb].
+        rewrite guard_close_none by exact Hc. rewrite guard_cancel_none by exact Hc. exact S. }
+    pose proof (sc_phase _ _ (sim_c _ _ S) _ _ Hc) as [Dp Da Dc Dd].
+    rewrite (sim_range_false m s i (sim_c _ _ S)) by congruence. rewrite Dd, Da, Dc. cbn [orb].
+    assert (Hmid : (c_phase c = PNew \/ active (c_phase c) = true) ->
+               ph_aband (c_phase c) = false -> ph_closing (c_phase c) = false ->
+               ph_done (c_phase c) = false ->
+               let m1 := upd_m m (m_now m) (m_calls m) (m_done m)
+                          (if ph_closing (closed_phase (c_phase c)) then m_abandoned m else m_abandoned m ++ [i])
+                          (if ph_closing (closed_phase (c_phase c)) then m_closing m ++ [i] else m_closing m)
+                          (m_polled m) (m_disp m) (m_disp_dropped m) (m_handles m) (m_contract m) in
+               sim m1 (guard_close s i) /\
+               nth_error (calls (guard_close s i)) i = Some (with_phase c (closed_phase (c_phase c)))).
+    { intros Hph Ha Hcl Hd m1. rewrite Ha in Da. rewrite Hcl in Dc. rewrite Hd in Dd.
+      eapply (sim_guard_close_gen m m1 s i c); try exact S; try exact Hc; try exact Hph.
+      - constructor; reflexivity.
+      - reflexivity.
+      - apply agree_lists; intros j Hj; cbn; try reflexivity.
+        + destruct (ph_closing (closed_phase (c_phase c))); [reflexivity|apply mem_nat_snoc_other, Hj].
+        + destruct (ph_closing (closed_phase (c_phase c))); [apply mem_nat_snoc_other, Hj|reflexivity].
+      - subst m1. destruct Hph as [Hp|Hp].
+        + rewrite Hp. constructor; cbn.
+          * intros b Hb; discriminate.
+          * apply mem_nat_snoc_same.
+          * exact Dc.
+          * exact Dd.
+        + assert (Hcp : closed_phase (c_phase c) = PClosing) by (destruct (c_phase c); try discriminate; reflexivity).
+          rewrite Hcp. constructor; cbn.
+          * intros b [= <-]. apply Dp. destruct (c_phase c); try discriminate; reflexivity.
+          * exact Da.
+          * apply mem_nat_snoc_same.
+          * exact Dd. }
+    destruct (c_phase c) eqn:Hp; cbn [ph_done ph_aband ph_closing orb]; cbn [ph_polled] in Dp;
+      try exact S;
+      try (unfold guard_close; rewrite Hc, Hp; unfold guard_cancel; rewrite Hc, Hp; exact S).
+    - (* PNew: the future simply goes away *)
+      destruct Hmid as [S1 H1]; try reflexivity; [left; reflexivity|].
+      cbn [closed_phase ph_closing] in S1, H1.
+      unfold guard_cancel. rewrite H1. cbn [c_phase with_phase]. exact S1.
+    - destruct Hmid as [S1 H1]; try reflexivity; [right; reflexivity|].
+      cbn [closed_phase ph_closing] in S1, H1.
+      eapply (sim_guard_cancel_gen _ _ _ i _ S1 H1); try reflexivity.
+      + constructor; reflexivity.
+      + apply agree_lists; intros j Hj; cbn; try reflexivity.
+        * apply mem_nat_snoc_other, Hj.
+        * symmetry. apply mem_nat_snoc_other, Hj.
+      + constructor; cbn; [intros b Hb; discriminate|apply mem_nat_snoc_same|exact Dc|exact Dd].
+    - destruct Hmid as [S1 H1]; try reflexivity; [right; reflexivity|].
+      cbn [closed_phase ph_closing] in S1, H1.
+      eapply (sim_guard_cancel_gen _ _ _ i _ S1 H1); try reflexivity.
+      + constructor; reflexivity.
+      + apply agree_lists; intros j Hj; cbn; try reflexivity.
+        * apply mem_nat_snoc_other, Hj.
+        * symmetry. apply mem_nat_snoc_other, Hj.
+      + constructor; cbn; [intros b Hb; discriminate|apply mem_nat_snoc_same|exact Dc|exact Dd].
+    - destruct Hmid as [S1 H1]; try reflexivity; [right; reflexivity|].
+      cbn [closed_phase ph_closing] in S1, H1.
+      eapply (sim_guard_cancel_gen _ _ _ i _ S1 H1); try reflexivity.
+      + constructor; reflexivity.
+      + apply agree_lists; intros j Hj; cbn; try reflexivity.
+        * apply mem_nat_snoc_other, Hj.
+        * symmetry. apply mem_nat_snoc_other, Hj.
+      + constructor; cbn; [intros b Hb; discriminate|apply mem_nat_snoc_same|exact Dc|exact Dd].
+    - destruct Hmid as [S1 H1]; try reflexivity; [right; reflexivity|].
+      cbn [closed_phase ph_closing] in S1, H1.
+      eapply (sim_guard_cancel_gen _ _ _ i _ S1 H1); try reflexivity.
+      + constructor; reflexivity.
+      + apply agree_lists; intros j Hj; cbn; try reflexivity.
+        * apply mem_nat_snoc_other, Hj.
+        * symmetry. apply mem_nat_snoc_other, Hj.
+      + constructor; cbn; [intros b Hb; discriminate|apply mem_nat_snoc_same|exact Dc|exact Dd].
+  Qed.
+
+  (* ---- completion of a call (observer: m_done grows) *)
+  Lemma sim_finish m m' s s' i c o :
+    sim m s -> nth_error (calls s) i = Some c -> active (c_phase c) = true ->
+    c_phase c <> PAcquiring ->
+    calls s' = phase_calls (calls s) i PDone -> sbc s s' -> queue s' = queue s ->
+    waiters s' = waiters s ->
+    mcore m m' -> m_polled m' = m_polled m -> m_abandoned m' = m_abandoned m ->
+    m_closing m' = m_closing m -> m_done m' = m_done m ++ [(i, o)] -> sim m' s'.
+  Proof.
+    intros S Hc Ha Hna Ec B Eq Ew M Mp Ma Mcl Md.
+    pose proof (sc_phase _ _ (sim_c _ _ S) _ _ Hc) as [Dp Da Dc Dd].
+    eapply (sim_phase_obs m m' s s' i c PDone); try eassumption; try reflexivity.
+    - rewrite Ew. intros w Hin. split; [exact Hin|]. intros ->.
+      eapply winv_not_acq; try eassumption. apply S.
+    - rewrite Ew. apply S.
+    - apply agree_lists; intros j Hj; rewrite ?Ma, ?Mcl; try reflexivity.
+      rewrite (done_idx_snoc m m' i o j Md). replace (Nat.eqb i j) with false by lia. apply orb_false_r.
+    - constructor; rewrite ?Mp, ?Ma, ?Mcl.
+      + intros b [= <-]. apply Dp. destruct (c_phase c); try discriminate; reflexivity.
+      + rewrite Da. destruct (c_phase c); try discriminate; reflexivity.
+      + rewrite Dc. destruct (c_phase c); try discriminate; reflexivity.
+      + rewrite (done_idx_snoc m m' i o i Md), Nat.eqb_refl. apply orb_true_r.
+  Qed.
+
+  Definition add_done m (i : nat) (o : outcome) : mst :=
+    upd_m m (m_now m) (m_calls m) (m_done m ++ [(i, o)]) (m_abandoned m) (m_closing m)
+          (m_polled m) (m_disp m) (m_disp_dropped m) (m_handles m) (m_contract m).
+
+  Lemma sim_poll_slot m s i c r s' :
+    sim m s -> nth_error (calls s) i = Some c -> active (c_phase c) = true ->
+    c_phase c <> PAcquiring -> poll_slot s i (c_id c) = (r, s') ->
+    match r with
+    | CDone o => sim (add_done m i o) s' /\ just m (c_id c) o
+    | CPending => s' = s
+    | CNothing => False
+    end.
+  Proof.
+    intros S Hc Ha Hna. unfold poll_slot.
+    assert (F : forall o, sim (add_done m i o) (set_phase (slot_rx_close s (c_id c)) i PDone)).
+    { intro o. eapply (sim_finish m _ s _ i c o); try eassumption; try reflexivity.
+      - rewrite set_phase_alt. reflexivity.
+      - apply sbc_set_phase, sbc_rx_close, sbc_refl.
+      - rewrite set_phase_alt. reflexivity.
+      - rewrite set_phase_alt. reflexivity.
+      - constructor; reflexivity. }
+    destruct (sl_val (get_slot s (c_id c))) as [o|] eqn:Ev.
+    - intros [= <- <-]. split; [apply F|]. apply (sd_slots _ _ (sim_d _ _ S)), Ev.
+    - destruct (sl_tx_gone (get_slot s (c_id c))).
+      + intros [= <- <-]. split; [apply F|exact I].
+      + intros [= <- <-]. reflexivity.
+  Qed.
+
+  Lemma sim_fail_shutdown m s i c :
+    sim m s -> nth_error (calls s) i = Some c -> active (c_phase c) = true ->
+    c_phase c <> PAcquiring ->
+    sim (add_done m i OShutdown) (snd (fail_shutdown s i (c_id c))).
+  Proof.
+    intros S Hc Ha Hna. unfold fail_shutdown. cbn [snd].
+    eapply (sim_finish m _ s _ i c OShutdown); try eassumption; try reflexivity.
+    - rewrite set_phase_alt, push_cancel_alt. reflexivity.
+    - apply sbc_set_phase, sbc_push_cancel, sbc_rx_close, sbc_tx_drop, sbc_refl.
+    - rewrite set_phase_alt, push_cancel_alt. reflexivity.
+    - rewrite set_phase_alt, push_cancel_alt. reflexivity.
+    - constructor; reflexivity.
+  Qed.
+
+  Lemma sim_add_waiter m s s' i c :
+    sim m s -> nth_error (calls s) i = Some c -> c_phase c = PAcquiring -> ~ In i (waiters s) ->
+    sbc s s' -> calls s' = calls s -> queue s' = queue s -> waiters s' = waiters s ++ [i] ->
+    sim m s'.
+  Proof.
+    intros [C W D] Hc Hp Hni B Ec Eq Ew. destruct B. constructor.
+    - eapply simC_frame; eassumption.
+    - constructor; rewrite Ew, ?Ec.
+      + intros w Hin. apply in_app_or in Hin. destruct Hin as [Hin|[<-|[]]]; [apply W, Hin|].
+        exists c. split; assumption.
+      + apply NoDup_app_single; [apply W|exact Hni].
+    - eapply simD_vals; eassumption.
+  Qed.
+
+  Lemma set_nth_twice {A} (i : nat) (x y : A) (l : list A) : set_nth i y (set_nth i x l) = set_nth i y l.
+  Proof. revert i; induction l as [|z r IH]; intros [|i]; cbn; try reflexivity. f_equal. apply IH. Qed.
+
+  Lemma phase_calls_set_nth l i x p :
+    (i < length l)%nat -> phase_calls (set_nth i x l) i p = set_nth i (with_phase x p) l.
+  Proof.
+    intro H. unfold phase_calls. rewrite nth_error_set_nth_same by exact H. apply set_nth_twice.
+  Qed.
+
+  Definition polled_after m (i : nat) : list nat :=
+    if mem_nat i (m_polled m) || mem_nat i (m_abandoned m) || mem_nat i (m_closing m)
+       || (length (m_calls m) <=? i)%nat
+    then m_polled m else m_polled m ++ [i].
+
+  Lemma rec_op_poll_call m i :
+    rec_op (T:=T) m (PollCall i) =
+    upd_m m (m_now m) (m_calls m) (m_done m) (m_abandoned m) (m_closing m) (polled_after m i)
+          (m_disp m) (m_disp_dropped m) (m_handles m) (m_contract m).
+  Proof. reflexivity. Qed.
+
+  Lemma sim_poll_call m s i r s' :
+    sim m s -> N.of_nat (S (length (m_polled m))) < two64 -> poll_call s i = (r, s') ->
+    match r with
+    | CDone o => sim (add_done (rec_op (T:=T) m (PollCall i)) i o) s' /\
+                 done_idx (rec_op (T:=T) m (PollCall i)) i = false /\
+                 exists id, id_of (rec_op (T:=T) m (PollCall i)) i = Some id /\
+                            just (rec_op (T:=T) m (PollCall i)) id o
+    | _ => sim (rec_op (T:=T) m (PollCall i)) s'
+    end.
+  Proof.
+    intros HS Hw. rewrite rec_op_poll_call. unfold poll_call.
+    destruct (nth_error (calls s) i) as [c|] eqn:Hc.
+    2:{ intros [= <- <-]. eapply sim_meq; [exact HS|constructor; reflexivity|..]; try reflexivity.
+        cbn [m_polled upd_m]. unfold polled_after.
+        rewrite (sim_range_true _ _ _ (sim_c _ _ HS) Hc), !orb_true_r. reflexivity. }
+    pose proof (sc_phase _ _ (sim_c _ _ HS) _ _ Hc) as [Dp Da Dc Dd].
+    assert (Hr := sim_range_false m s i (sim_c _ _ HS)). rewrite Hc in Hr. specialize (Hr ltac:(discriminate)).
+    set (m1 := upd_m m (m_now m) (m_calls m) (m_done m) (m_abandoned m) (m_closing m) (polled_after m i)
+                     (m_disp m) (m_disp_dropped m) (m_handles m) (m_contract m)).
+    assert (S1 : c_phase c <> PNew -> sim m1 s).
+    { intro Hn. eapply sim_meq; [exact HS|constructor; reflexivity|..]; try reflexivity.
+      cbn [m_polled upd_m m1]. unfold polled_after. rewrite Da, Dc.
+      destruct (c_phase c); try congruence; cbn [ph_polled] in Dp;
+        try (rewrite (Dp _ eq_refl)); cbn; rewrite ?orb_true_r; reflexivity. }
+    assert (Fin : forall o s2, sim (add_done m1 i o) s2 -> sim m1 s -> just m1 (c_id c) o ->
+              active (c_phase c) = true ->
+              sim (add_done m1 i o) s2 /\ done_idx m1 i = false /\
+              exists id, id_of m1 i = Some id /\ just m1 id o).
+    { intros o s2 H2 H1 J Ha. split; [exact H2|].
+      pose proof (sc_phase _ _ (sim_c _ _ H1) _ _ Hc) as [Dp1 _ _ Dd1]. split.
+      - rewrite Dd1. destruct (c_phase c); try discriminate; reflexivity.
+      - exists (c_id c). split; [|exact J]. apply (sc_id _ _ (sim_c _ _ H1) _ _ Hc).
+        apply mem_nat_In, Dp1. destruct (c_phase c); try discriminate; reflexivity. }
+    destruct (c_phase c) eqn:Hp.
+    - (* PNew: the request id is handed out *)
+      clear S1 Fin.
+      set (id := next_id s).
+      set (s0 := with_id (upd_misc s (N.modulo (id + 1) 18446744073709551616) (handles s) (now s)) i c id).
+      set (s1 := set_slot s0 id slot0).
+      assert (Hi : (i < length (calls s))%nat) by (apply nth_error_Some; congruence).
+      set (sV := fun p' => upd_calls s1 (set_nth i (with_id_phase c id p') (calls s))).
+      assert (V : forall p', active p' = true -> sim m1 (sV p')).
+      { intros p' Ha. eapply (sim_first_poll m m1 s (sV p') i c p'); try eassumption; try reflexivity.
+        - intros id' v. unfold sV, s1. unfold get_slot. cbn [slots upd_calls set_slot upd_slots].
+          rewrite alookup_aset. destruct (N.eqb id' id); [discriminate|]. exact (fun x => x).
+        - constructor; reflexivity.
+        - cbn [m_polled upd_m m1]. unfold polled_after. rewrite Da, Dc, Hr, (Dp _ eq_refl). reflexivity. }
+      assert (HV : forall p', nth_error (calls (sV p')) i = Some (with_id_phase c id p')).
+      { intro p'. cbn [calls sV upd_calls]. apply nth_error_set_nth_same, Hi. }
+      assert (Hni : ~ In i (waiters s)).
+      { eapply winv_not_acq; [apply HS|exact Hc|congruence]. }
+      assert (BV : forall p', sbc (sV p') s1).
+      { intro p'. constructor; try reflexivity. apply same_vals_slots. reflexivity. }
+      change (rx_closed s1) with (rx_closed s). change (permits s1) with (permits s).
+      destruct (rx_closed s) eqn:Erx.
+      + (* the queue is closed: the call ends at once *)
+        intros [= <- <-].
+        assert (F : sim (add_done m1 i OShutdown) (snd (fail_shutdown s1 i id))).
+        { unfold fail_shutdown. cbn [snd]. rewrite set_phase_alt, push_cancel_alt.
+          eapply (sim_finish m1 _ (sV PAssigned) _ i _ OShutdown (V PAssigned eq_refl) (HV PAssigned));
+            try reflexivity; try discriminate.
+          - cbn [calls upd_calls upd_cancels slot_rx_close slot_tx_drop set_slot upd_slots sV].
+            cbn [calls s1 set_slot upd_slots s0 with_id upd_calls].
+            rewrite !phase_calls_set_nth by exact Hi. reflexivity.
+          - apply sbc_upd_calls, sbc_upd_cancels, sbc_rx_close, sbc_tx_drop, BV.
+          - constructor; reflexivity. }
+        split; [exact F|]. split.
+        * unfold done_idx. cbn [m_done upd_m m1]. exact Dd.
+        * pose proof (V PAssigned eq_refl) as SV.
+          exists id. split; [|exact I].
+          apply (sc_id _ _ (sim_c _ _ SV) _ _ (HV PAssigned)).
+          apply mem_nat_In. apply (d_polled _ _ _ (sc_phase _ _ (sim_c _ _ SV) _ _ (HV PAssigned))). reflexivity.
+      + destruct (permits s) as [|p] eqn:Eperm.
+        * (* no permit: wait *)
+          intros [= <- <-]. rewrite set_phase_alt.
+          eapply (sim_add_waiter m1 (sV PAcquiring) _ i _ (V PAcquiring eq_refl) (HV PAcquiring));
+            try reflexivity; try exact Hni.
+          -- apply sbc_upd_calls, sbc_upd_q, BV.
+          -- cbn [calls upd_calls upd_q sV].
+             cbn [calls s1 set_slot upd_slots s0 with_id upd_calls].
+             rewrite phase_calls_set_nth by exact Hi. reflexivity.
+        * (* a permit: the request is queued; the fresh oneshot is empty *)
+          unfold enqueue.
+          match goal with |- poll_slot ?sa i id = _ -> _ => set (sA := sa) end.
+          assert (SA : sim m1 sA).
+          { unfold sA. rewrite set_phase_alt.
+            eapply (sim_enqueue m1 (sV PAssigned) _ i _ (V PAssigned eq_refl) (HV PAssigned)); try reflexivity.
+            - cbn [calls upd_calls upd_q sV].
+              cbn [calls s1 set_slot upd_slots s0 with_id upd_calls].
+              rewrite !phase_calls_set_nth by exact Hi. reflexivity.
+            - apply sbc_upd_calls, sbc_upd_q, sbc_upd_q, BV. }
+          unfold poll_slot.
+          assert (Hslot : get_slot sA id = slot0).
+          { unfold sA, get_slot. rewrite set_phase_alt.
+            cbn [slots upd_calls upd_q s1 set_slot upd_slots]. rewrite alookup_aset, N.eqb_refl. reflexivity. }
+          rewrite Hslot. cbn [sl_val sl_tx_gone slot0]. intros [= <- <-]. exact SA.
+    - (* PAcquiring *) intros [= <- <-]. apply S1. discriminate.
+    - (* PAssigned *)
+      specialize (S1 ltac:(discriminate)).
+      destruct (rx_closed s).
+      + intros [= <- <-].
+        assert (F : sim (add_done m1 i OShutdown)
+                        (snd (fail_shutdown (upd_q s (S (permits s)) (queue s) (waiters s) true) i (c_id c)))).
+        { apply sim_fail_shutdown; [|exact Hc|rewrite Hp; reflexivity|congruence].
+          eapply sim_sbc; [exact S1|apply sbc_upd_q, sbc_refl|reflexivity..]. }
+        apply Fin; [exact F|exact S1|exact I|reflexivity].
+      + unfold enqueue.
+        match goal with |- poll_slot ?sa i _ = _ -> _ => set (sA := sa) end.
+        assert (SA : sim m1 sA).
+        { eapply (sim_enqueue m1 s sA i c S1 Hc Hp); unfold sA; rewrite set_phase_alt; try reflexivity.
+          apply sbc_upd_calls, sbc_upd_q, sbc_refl. }
+        assert (HA : nth_error (calls sA) i = Some (with_phase c PAwaiting)).
+        { unfold sA. rewrite set_phase_alt. cbn [calls upd_calls upd_q].
+          rewrite nth_error_phase_calls, Nat.eqb_refl, Hc. reflexivity. }
+        intro Hps.
+        pose proof (sim_poll_slot m1 sA i _ r s' SA HA eq_refl ltac:(discriminate) Hps) as R.
+        destruct r as [|o|]; [subst s'; exact SA| |destruct R].
+        destruct R as [R J]. cbn [c_id with_phase] in J.
+        apply Fin; [exact R|exact S1|exact J|reflexivity].
+    - (* PAcqClosed *)
+      specialize (S1 ltac:(discriminate)). intros [= <- <-].
+      apply Fin; [|exact S1|exact I|reflexivity].
+      apply sim_fail_shutdown; [exact S1|exact Hc|rewrite Hp; reflexivity|congruence].
+    - (* PAwaiting *)
+      specialize (S1 ltac:(discriminate)). intro Hps.
+      assert (Ha : active (c_phase c) = true) by (rewrite Hp; reflexivity).
+      pose proof (sim_poll_slot m1 s i c r s' S1 Hc Ha ltac:(congruence) Hps) as R.
+      destruct r as [|o|]; [subst s'; exact S1| |destruct R].
+      destruct R as [R J]. apply Fin; [exact R|exact S1|exact J|reflexivity].
+    - intros [= <- <-]. apply S1. discriminate.
+    - intros [= <- <-]. apply S1. discriminate.
+    - intros [= <- <-]. apply S1. discriminate.
+  Qed.
+End Ops.
